@@ -1,6 +1,7 @@
 package main
 
 import (
+	"fmt"
 	"os"
 	"sort"
 
@@ -28,11 +29,12 @@ func stepHook(db *syz.SpanFile, name string, off, n uint64) {
 var snapHook func(db *syz.SpanFile, name string)
 
 type storeRun struct {
-	path string
-	sf   *syz.SpanFile   // span-file mode, or the collection's file
-	c    *syz.Collection // collection mode
-	dim  int
-	q    int
+	path   string
+	sf     *syz.SpanFile   // span-file mode, or the collection's file
+	c      *syz.Collection // collection mode
+	dim    int
+	q      int
+	metric int
 }
 
 func (r *storeRun) file() *syz.SpanFile {
@@ -113,7 +115,7 @@ func (r *storeRun) op(t *toks) {
 		os.Remove(r.path)
 		c, err := syz.NewCollection(syz.CollectionOptions{Name: r.path, DistanceMethod: metric, DimensionCount: dim, Quantization: q, FileMode: syz.CreateAndOverwrite})
 		if err == nil {
-			r.c, r.dim, r.q = c, dim, q
+			r.c, r.dim, r.q, r.metric = c, dim, q, metric
 		}
 		mutLine(40, err)
 	case 41: // OpenFile on a fresh file
@@ -190,20 +192,20 @@ func (r *storeRun) op(t *toks) {
 		}
 		line(v...)
 	case 30:
+		mode, dim, q, metric := syz.FileMode(t.next()), int(t.next()), int(t.next()), int(t.next())
 		if r.c != nil {
-			opts := r.c.GetOptions()
 			if err := r.c.Close(); err != nil {
 				line(30, 1)
 				return
 			}
-			c, err := syz.NewCollection(syz.CollectionOptions{Name: r.path, FileMode: syz.ReadWrite})
+			c, err := syz.NewCollection(syz.CollectionOptions{Name: r.path, FileMode: mode, DimensionCount: dim, Quantization: q, DistanceMethod: metric})
 			if err != nil {
 				line(30, 1)
 				return
 			}
 			r.c = c
 			o2 := c.GetOptions()
-			if o2.DimensionCount != opts.DimensionCount || o2.Quantization != opts.Quantization || o2.DistanceMethod != opts.DistanceMethod {
+			if o2.DimensionCount != r.dim || o2.Quantization != r.q || o2.DistanceMethod != r.metric {
 				line(30, 4)
 				return
 			}
@@ -213,7 +215,7 @@ func (r *storeRun) op(t *toks) {
 				line(30, 1)
 				return
 			}
-			sf, err := syz.OpenFile(r.path, syz.ReadWrite)
+			sf, err := syz.OpenFile(r.path, mode)
 			if err != nil {
 				line(30, 1)
 				return
@@ -238,8 +240,15 @@ func runStore(path string) {
 		panic("engine")
 	}
 	r := &storeRun{path: path}
+	snapDir := os.Getenv("VERIF_SNAPDIR")
+	k := 0
 	for t.more() {
 		r.op(t)
+		if snapDir != "" && r.file() != nil {
+			// image after every operation, for the chain oracle
+			os.WriteFile(fmt.Sprintf("%s/%06d.img", snapDir, k), r.file().VerifImage(), 0644)
+		}
+		k++
 	}
 	out.Flush()
 	os.Remove(path)
